@@ -533,10 +533,19 @@ pub fn gen_arbitrary_stream(rng: &mut Rng, cat: &Cat) -> Vec<AEv> {
 
 pub enum POp { Ev(AEv), Write(usize) }
 
-pub fn run_pipeline(wx: &WX, cat: &Rc<Cat>, ops: &[POp]) -> String {
+pub struct PipeRun {
+    pub line: String,
+    /// per op: what reached the leaves (`e <leaf> <ev>` / `w <leaf> ...`)
+    pub per_op: Vec<Vec<String>>,
+    pub stats: [usize; 6],
+    pub failed: bool,
+}
+
+pub fn run_pipeline(wx: &WX, cat: &Rc<Cat>, ops: &[POp]) -> PipeRun {
     let log: Log = Rc::default();
     let mut w = build(wx, &log, cat);
     let mut per_op = vec![];
+    let mut raw = vec![];
     for op in ops {
         log.borrow_mut().clear();
         match op {
@@ -545,36 +554,126 @@ pub fn run_pipeline(wx: &WX, cat: &Rc<Cat>, ops: &[POp]) -> String {
         }
         let l = log.borrow();
         per_op.push(show_list(&l, |s| s.clone()));
+        raw.push(l.clone());
     }
     let s = [w.passed_steps(), w.skipped_steps(), w.failed_steps(), w.retried_steps(), w.parsing_errors(), w.hook_errors()];
-    format!(
-        "{} || {} {} {} {} {} {} {}",
-        per_op.join(" | "), s[0], s[1], s[2], s[3], s[4], s[5], b(w.execution_has_failed())
-    )
+    let failed = w.execution_has_failed();
+    PipeRun {
+        line: format!(
+            "{} || {} {} {} {} {} {} {}",
+            per_op.join(" | "), s[0], s[1], s[2], s[3], s[4], s[5], b(failed)
+        ),
+        per_op: raw,
+        stats: s,
+        failed,
+    }
 }
 
-fn gen_case(rng: &mut Rng, canonical: bool, force: Option<fn(&mut Rng, &mut usize) -> WX>) -> Case {
-    let specs = gen_catalog_specs(rng, 3);
+#[derive(Clone, Copy, PartialEq)]
+enum Mon { None, C12, C01 }
+
+fn has_fos(wx: &WX) -> bool {
+    let mut k = vec![];
+    wx.kinds(&mut k);
+    k.contains(&"fos")
+}
+
+/// Directed streams: the kernel-checked witnesses of the known findings (Lean: C12.streamA/B/C).
+fn directed(idx: usize) -> Option<(Vec<FeatSpec>, Vec<AEv>)> {
+    let st = |v: &str| StepSpec { ty: gherkin::StepType::Given, value: v.to_owned() };
+    let nsteps = if idx == 2 { 0 } else { 1 };
+    let spec = FeatSpec {
+        id: 0, name: "f-0".into(), path: Some("/feat/f0.feature".into()), tags: vec![],
+        bg: if idx == 2 { vec![st("fbg 0")] } else { vec![] },
+        scens: vec![ScenSpec { id: 1, name: "s-1".into(), tags: vec![], steps: (0..nsteps).map(|_| st("step 0")).collect(), line: 20 }],
+        rules: vec![],
+    };
+    let k = Key { feat: 0, rule: None, scen: 1 };
+    let a = |ret: (usize, usize), e: ASc| AEv::Scen(k, Some(ret), e);
+    let (r0, r1) = ((0, 1), (1, 0));
+    let body: Vec<AEv> = match idx {
+        0 => vec![
+            a(r0, ASc::Started), a(r0, ASc::Step(0, ARes::Started)), a(r0, ASc::Step(0, ARes::Passed)),
+            a(r0, ASc::Hook(false, AHook::Started)), a(r0, ASc::Hook(false, AHook::Failed(0))), a(r0, ASc::Finished),
+            a(r1, ASc::Started), a(r1, ASc::Step(0, ARes::Started)), a(r1, ASc::Step(0, ARes::Passed)),
+            a(r1, ASc::Hook(false, AHook::Started)), a(r1, ASc::Hook(false, AHook::Passed)), a(r1, ASc::Finished),
+        ],
+        1 => vec![
+            a(r0, ASc::Started), a(r0, ASc::Hook(true, AHook::Started)), a(r0, ASc::Hook(true, AHook::Passed)),
+            a(r0, ASc::Step(0, ARes::Started)), a(r0, ASc::Step(0, ARes::Failed(AErr::Panic(0)))), a(r0, ASc::Finished),
+            a(r1, ASc::Started), a(r1, ASc::Hook(true, AHook::Started)), a(r1, ASc::Hook(true, AHook::Failed(0))), a(r1, ASc::Finished),
+        ],
+        2 => vec![
+            a(r0, ASc::Started), a(r0, ASc::Bg(0, ARes::Started)), a(r0, ASc::Bg(0, ARes::Failed(AErr::Panic(0)))), a(r0, ASc::Finished),
+            a(r1, ASc::Started), a(r1, ASc::Bg(0, ARes::Started)), a(r1, ASc::Bg(0, ARes::Passed)), a(r1, ASc::Finished),
+        ],
+        _ => return None,
+    };
+    let mut evs = vec![AEv::Started, AEv::FeatStarted(0)];
+    evs.extend(body);
+    evs.extend([AEv::FeatFinished(0), AEv::Finished]);
+    Some((vec![spec], evs))
+}
+
+fn gen_case(rng: &mut Rng, canonical: bool, force: Option<fn(&mut Rng, &mut usize) -> WX>, mon: Mon, idx: usize) -> Case {
+    let dir = if mon == Mon::None { None } else { directed(idx) };
+    let specs = match &dir { Some((s, _)) => s.clone(), None => gen_catalog_specs(rng, 3) };
     let cat = Rc::new(Cat::new(&specs));
     let mut nl = 0;
     let wx = match force {
+        Some(_) if dir.is_some() => { nl += 1; WX::Summ(Box::new(WX::Leaf(nl))) }
         Some(f) => f(rng, &mut nl),
         None => { let d = rng.range(1, 3); gen_wx(rng, d, &mut nl) }
     };
     let cut = rng.chance(1, 6);
-    let evs = if canonical { gen_canonical_stream(rng, &cat, cut) } else { gen_arbitrary_stream(rng, &cat) };
+    let evs = if let Some((_, e)) = dir { e } else if canonical { gen_canonical_stream(rng, &cat, cut) } else { gen_arbitrary_stream(rng, &cat) };
     let mut ops: Vec<POp> = vec![];
     for e in evs {
         if wx.arb() && rng.chance(1, 25) { ops.push(POp::Write(rng.below(5))); }
         ops.push(POp::Ev(e));
     }
-    let imp = run_pipeline(&wx, &cat, &ops);
-    let req = format!(
+    let run = run_pipeline(&wx, &cat, &ops);
+    let mut imp = run.line.clone();
+    let mut req = format!(
         "pipe.run {} {} {}",
         wx.show(),
         cat.show(),
         show_list(&ops, |o| match o { POp::Ev(e) => format!("E {}", show_aev(e)), POp::Write(i) => format!("Wr {i}") }),
     );
+    match mon {
+        Mon::None => {}
+        Mon::C12 => {
+            // the stream as `Summarize` saw it = what reached leaf 1 up to the first run-Finished;
+            // the implementation's scenario counters = the summary it wrote
+            let mut seen: Vec<String> = vec![];
+            let mut summary: Option<String> = None;
+            let mut done = false;
+            for l in run.per_op.iter().flatten() {
+                if let Some(ev) = l.strip_prefix("e 1 ") {
+                    if !done { seen.push(ev.to_owned()); }
+                    if ev == "X" { done = true; }
+                } else if let Some(sm) = l.strip_prefix("w 1 s ") {
+                    summary.get_or_insert(sm.to_owned());
+                }
+            }
+            if let Some(sm) = summary {
+                let nums: Vec<&str> = sm.split(' ').collect();
+                req.push_str(&format!(
+                    "\nmon.c12 {} {} {} {} {} {} {}",
+                    cat.show(), seen.len(), seen.join(" "), nums[2], nums[3], nums[4], nums[5]
+                ));
+                imp.push_str("\nok");
+            }
+        }
+        Mon::C01 => {
+            let evs: Vec<String> = ops.iter().filter_map(|o| match o { POp::Ev(e) => Some(show_aev(e)), _ => None }).collect();
+            req.push_str(&format!(
+                "\nmon.c01 {} {} {} {} {} {} {}",
+                b(has_fos(&wx)), cat.show(), evs.len(), evs.join(" "), b(run.failed), run.stats[2], run.stats[4]
+            ));
+            imp.push_str("\nok");
+        }
+    }
     let mut kinds = vec![];
     wx.kinds(&mut kinds);
     kinds.sort();
@@ -588,14 +687,16 @@ fn gen_case(rng: &mut Rng, canonical: bool, force: Option<fn(&mut Rng, &mut usiz
 }
 
 /// C13: arbitrary streams (2/3) and canonical ones (1/3) through random nestings.
-pub fn gen_comb(rng: &mut Rng) -> Case {
+pub fn gen_comb(rng: &mut Rng, idx: usize) -> Case {
+    let _ = idx;
     let canonical = rng.chance(1, 3);
-    gen_case(rng, canonical, None)
+    gen_case(rng, canonical, None, Mon::None, idx)
 }
 
 /// C12: canonical normalized streams through `Summarize`, optionally inside `Repeat` /
 /// outside `FailOnSkipped`.
-pub fn gen_summ(rng: &mut Rng) -> Case {
+pub fn gen_summ(rng: &mut Rng, idx: usize) -> Case {
+    let _ = idx;
     fn shape(rng: &mut Rng, nl: &mut usize) -> WX {
         *nl += 1;
         let leaf = WX::Leaf(*nl);
@@ -609,11 +710,12 @@ pub fn gen_summ(rng: &mut Rng) -> Case {
             _ => s,
         }
     }
-    gen_case(rng, true, Some(shape))
+    gen_case(rng, true, Some(shape), Mon::C12, idx)
 }
 
 /// C01: the verdict-relevant pipelines (`summarized()`, `tee`, `or`, with/without fos/repeat).
-pub fn gen_verdict(rng: &mut Rng) -> Case {
+pub fn gen_verdict(rng: &mut Rng, idx: usize) -> Case {
+    let _ = idx;
     fn shape(rng: &mut Rng, nl: &mut usize) -> WX {
         fn summ(rng: &mut Rng, nl: &mut usize) -> WX {
             *nl += 1;
@@ -628,5 +730,5 @@ pub fn gen_verdict(rng: &mut Rng) -> Case {
         };
         if rng.chance(1, 3) { WX::Fos('d', Box::new(core)) } else { core }
     }
-    gen_case(rng, true, Some(shape))
+    gen_case(rng, true, Some(shape), Mon::C01, idx)
 }
